@@ -157,6 +157,15 @@ class Printer:
       self.t('!'); self.t('(')
       self.expr(e[1])
       self.t(')')
+    elif k == 'neg':
+      # unary minus; as an operand it is parenthesised (`a - -b` is rejected by both parsers)
+      if operand:
+        self.t('(')
+      self.t('-'); self.t('(')
+      self.expr(e[1])
+      self.t(')')
+      if operand:
+        self.t(')')
     elif k == 'field':
       if e[1][0] == 'var':
         self.t(e[1][1])
@@ -375,7 +384,7 @@ class Printer:
     if value is not None and not value_named and not long_head_agg:
       self.sp()
       self.t('=' if value[1] is None else value[1]); self.sp()
-      self.expr(value[0], 4, True, value[0][0] in ('cmpe', 'bin', 'not_e', 'arrow'))
+      self.expr(value[0], 4, True, value[0][0] in ('cmpe', 'bin', 'not_e', 'neg', 'arrow'))
     explicit_distinct = distinct and (value is None or value[1] is None or long_head_agg or r.get('force_distinct'))
     if explicit_distinct:
       self.kw(); self.t('distinct')
